@@ -604,10 +604,6 @@ func (e *SpecEnv) index(x, i Term) (Term, error) {
 			return Term{S: fmt.Sprintf("(strat %s %s)", x.S, i.S), Sort: "Int", T: u.Elem()}, nil
 		}
 		ck := elemComp(u.Elem())
-		if isStruct(u.Elem()) {
-			vc.comp(ck, "")
-			return Term{S: vc.elemSubRef(ck, fmt.Sprintf("(s_arr %s)", x.S), fmt.Sprintf("(idx (s_off %s) %s)", x.S, i.S)), Sort: "Int", T: u.Elem(), Addr: true}, nil
-		}
 		es := vc.sortOf(u.Elem())
 		rt := Term{S: fmt.Sprintf("(select (select %s (s_arr %s)) (idx (s_off %s) %s))", vc.getCompIn(e.heap, ck, "(Array Int (Array Int "+es+"))"), x.S, x.S, i.S), Sort: es, T: u.Elem()}
 		if e.nbound == 0 {
